@@ -25,6 +25,7 @@ from guppylang_internals.engine import DEF_STORE, ENGINE
 from guppylang_internals.error import GuppyError
 from guppylang_internals.experimental import check_capturing_closures_enabled
 from guppylang_internals.nodes import CheckedNestedFunctionDef, NestedFunctionDef
+from guppylang_internals.tys.param import ConstParam
 from guppylang_internals.tys.parsing import (
     TypeParsingCtx,
     check_function_arg,
@@ -32,6 +33,7 @@ from guppylang_internals.tys.parsing import (
     type_from_ast,
     type_with_flags_from_ast,
 )
+from guppylang_internals.tys.subst import Instantiator
 from guppylang_internals.tys.ty import (
     ExistentialTypeVar,
     FuncInput,
@@ -391,8 +393,18 @@ def handle_implicit_self_arg(
 
     # The generic params inherited from the parent type should appear first in the
     # parameter list, so we have to shift the existing ones
-    for name, param in ctx.param_var_mapping.items():
-        ctx.param_var_mapping[name] = param.with_idx(param.idx + len(self_defn.params))
+    # The type of a const parameter may refer to earlier parameters of the function,
+    # those references have to be shifted as well
+    shifted: list[Parameter] = []
+    for name, param in sorted(
+        ctx.param_var_mapping.items(), key=lambda item: item[1].idx
+    ):
+        new_param = param.with_idx(param.idx + len(self_defn.params))
+        if isinstance(new_param, ConstParam):
+            inst = Instantiator([p.to_bound() for p in shifted], allow_partial=True)
+            new_param = replace(new_param, ty=new_param.ty.transform(inst))
+        shifted.append(new_param)
+        ctx.param_var_mapping[name] = new_param
 
     ctx.param_var_mapping.update({param.name: param for param in self_defn.params})
     self_args = [param.to_bound() for param in self_defn.params]
